@@ -9,6 +9,8 @@
 (*                 about Pump2Len characters, in every context                                 *)
 (*  mode "gram"  : every text of the family's numeric / instant grammar (Hostile!GramTexts);   *)
 (*                 the state variable seq holds the text itself                                *)
+(*  mode "target": every pair of Hostile!TargetPairs; fam holds the target (function or slot), *)
+(*                 seq the text                                                                *)
 (*  mode "table" : the families' token tables and function / slot lists (for the seeded driver)*)
 (* Invariants: every generated text is in the domain of the property and within the bounds.    *)
 EXTENDS Hostile, Json
@@ -28,6 +30,7 @@ Init ==
   \/ /\ "pump2" \in Modes /\ mode = "pump2" /\ fam \in FamSet /\ k \in 1..Len(Ctxs(fam)) /\ c = 0
      /\ seq \in {<<a, b>> : a \in 1..Min2(Pump2Toks, Len(Toks(fam))), b \in 1..Min2(Pump2Toks, Len(Toks(fam)))} /\ seq[1] # seq[2]
   \/ /\ "gram" \in Modes /\ mode = "gram" /\ fam \in FamSet /\ seq \in GramTexts(fam) /\ k = 0 /\ c = 0
+  \/ /\ "target" \in Modes /\ mode = "target" /\ k = 0 /\ c = 0 /\ \E p \in TargetPairs : fam = p[1] /\ seq = p[2]
   \/ /\ "table" \in Modes /\ mode = "table" /\ fam \in FamSet /\ seq = <<>> /\ k = 0 /\ c = 0
 
 Next == /\ mode = "seq" /\ Len(seq) < MaxLen
@@ -37,7 +40,7 @@ Next == /\ mode = "seq" /\ Len(seq) < MaxLen
 
 Text == CASE mode = "seq" -> TextOf(fam, seq)
           [] mode = "sweep" -> SweepText(fam, k, c)
-          [] mode = "gram" -> seq
+          [] mode \in {"gram", "target"} -> seq
           [] mode = "pump" -> PumpText(fam, k, c, PumpLen)
           [] mode = "pump2" -> LET unit == TextOf(fam, seq) IN Ctxs(fam)[k][1] \o Rep(unit, Pump2Len \div Len(unit)) \o Ctxs(fam)[k][2]
           [] OTHER -> <<>>
@@ -48,7 +51,7 @@ ASSUME ContractTable == TableWellFormed
 
 TextInDomain == InDomain(Text)
 TextBounded == CASE mode = "seq" -> Len(Text) <= MaxLen * MaxTokLen
-                 [] mode = "gram" -> Len(Text) <= 16000
+                 [] mode \in {"gram", "target"} -> Len(Text) <= 16000
                  [] mode = "sweep" -> Len(Text) <= 64
                  [] mode = "pump" -> Len(Text) <= PumpLen + 64 /\ Len(Text) >= PumpLen \div 2
                  [] mode = "pump2" -> Len(Text) <= Pump2Len + 64 /\ Len(Text) >= Pump2Len \div 2
@@ -59,8 +62,8 @@ BodyTable == [i \in 1..Len(Bodies) |->
                 cls |-> [j \in 1..Len(CLNames) |-> [name |-> CLNames[j], present |-> CLPresent(CLNames[j]),
                                                     text |-> CLText(CLNames[j], Len(Bodies[i][3]))]]]]
 Export == IF mode = "table" /\ fam = "body"
-          THEN PrintT(ToJson([table |-> fam, toks |-> Toks(fam), fns |-> FamFns(fam), slots |-> FamSlots(fam), bodies |-> BodyTable]))
+          THEN PrintT(ToJson([table |-> fam, toks |-> Toks(fam), fns |-> FamFns(fam), slots |-> FamSlots(fam), ctxt |-> CtxTargets(fam), bodies |-> BodyTable]))
           ELSE IF mode = "table"
-          THEN PrintT(ToJson([table |-> fam, toks |-> Toks(fam), fns |-> FamFns(fam), slots |-> FamSlots(fam)]))
-          ELSE PrintT(ToJson([fam |-> fam, mode |-> mode, len |-> Len(seq), s |-> Text]))
+          THEN PrintT(ToJson([table |-> fam, toks |-> Toks(fam), fns |-> FamFns(fam), slots |-> FamSlots(fam), ctxt |-> CtxTargets(fam)]))
+          ELSE PrintT(ToJson([fam |-> fam, mode |-> mode, len |-> Len(seq), k |-> k, s |-> Text]))
 =============================================================================
